@@ -143,7 +143,7 @@ def run(tier):
     ck.sample({"case": meta[0][0], "trace": [t for t, o in zip(trace, owner) if o == meta[0][0]][:12]})
     # ---------------- tools end to end
     tool_cases(ck, rnd, tier, bd, wd, trace, owner)
-    validate_segments(ck, "C01", trace, owner, wd, scripts_by={m[0]: (scripts[i], "writer %s" % m[0], None) for i, m in enumerate(meta)},
+    validate_segments(ck, "C01", trace, owner, wd, scripts_by={m[0]: (scripts[i], "writer %s" % m[0], [os.path.join(wd, m[0] + ".in")]) for i, m in enumerate(meta)},
                       module="Trace_Writer", cfg="Trace_Writer.cfg", start_ops=("wstart",))
     if not ck.violations:
         neg = [{"op": "wstart"}, {"op": "write", "n": 5, "ret": 5}, {"op": "wclose", "ret": 1, "f": {"valid": True, "contentEq": False, "total": 4, "cutsOk": True}}]
